@@ -48,7 +48,6 @@ func TestMain(m *testing.M) {
 	run.Floor("graceful_stop [drain-on,server-hanging,timeout-shorter-than-drain]", 4)
 	run.Floor("graceful_stop_transmissions_unanswered_server_hanging", 10)
 	run.Floor("points_enumerated_graceful_stop_scripts", 60)
-	run.Floor("graceful_stop_with_queue_transmission_while_Stop()_ran_server_answering_late", 2)
 	run.Floor(floorMassSpread, 60)
 	run.Floor(floorMassBeyond, 600)
 	run.Floor(floorMassPPPoE, 300)
